@@ -157,7 +157,7 @@ def add_noise(r, spec, enum_level=True, variant_level=True, skip=()):
             # the enum lives in its own module and is used from the parent; with a restricted visibility half of the time
             spec.nest = True
             if r.random() < 0.5:
-                spec.vis = r.choice(["pub(crate)", "pub(super)"])
+                spec.vis = r.choice(["pub(crate)", "pub(super)", "pub(in super::super)"])
     if variant_level:
         unit = [v for v in spec.variants if v.kind == "unit"]
         if "std_default" not in skip and unit and not spec.generics and r.random() < 0.3 and "Default" not in spec.std_derives:
